@@ -397,6 +397,10 @@ func stepSig(sp *space, script []string, step int, err error) string {
 				kind = "delete-by-text"
 			} else if strings.HasPrefix(line, "no ") {
 				kind = "delete"
+			} else if strings.HasPrefix(line, "permit ") || strings.HasPrefix(line, "deny ") {
+				// IOS line without sequence number: the replace-all path
+				// (all old lines deleted by text, then all new lines added)
+				kind = "insert-by-text"
 			} else {
 				kind = "insert"
 			}
